@@ -35,6 +35,18 @@ def scenarios(ctx):
         s['meta']['worker_thread_only'] = True
         s['runs'].append(kplib.scenario('plain', 'none')['runs'][0])       # then a cProfile-mode run in the same interpreter
         scs.append(s)
+    # profiled calls that overlap in two threads: the main thread's call returns while the worker's is still running (each thread switches its own
+    # tracing off when *its* outermost call ends), for every ending of the program
+    OVERLAP_PROG = ('import sys, threading\ntry:\n    profile\nexcept NameError:\n    def profile(f):\n        return f\n\n\n'
+                    'inside, go = threading.Event(), threading.Event()\n\n\n@profile\ndef worker_part():\n    inside.set()\n    go.wait(20)\n    return 1\n\n\n'
+                    '@profile\ndef main_part():\n    t = threading.Thread(target=worker_part)\n    t.start()\n    inside.wait(20)\n    return t\n\n\n'
+                    't = main_part()\ngo.set()\nt.join()\n%s\n')
+    for mode in ('l', 'lb', 'lm'):
+        for kind, ending in (('none', ''), ('exit', 'sys.exit(3)'), ('error', 'raise ValueError("boom")')):
+            s = kplib.scenario(mode, kind, files={'prog.py': OVERLAP_PROG % ending})
+            s['meta']['overlapping_threads'] = True
+            s['meta']['k'] = 0 if kind != 'none' else s['meta']['k']
+            scs.append(s)
     # the embedding application had set the importable decorator up itself before calling kernprof
     for mode in ('l', 'b', 'lm', 'plain'):
         for kind in ('none', 'error'):
